@@ -26,6 +26,7 @@ import (
 
 	"github.com/rulego/streamsql/types"
 	"github.com/rulego/streamsql/utils/cast"
+	"github.com/rulego/streamsql/verifhook"
 )
 
 // EnableDebug enables debug logging for window operations
@@ -159,6 +160,9 @@ func (tw *TumblingWindow) Add(data any) {
 	// Lock to ensure thread safety
 	tw.mu.Lock()
 	defer tw.mu.Unlock()
+	defer func() {
+		verifhook.At("tw.add", tw, int64(len(tw.data)), slotStartMs(tw.currentSlot), int64(len(tw.triggeredWindows)))
+	}()
 
 	// Extract event timestamp; event-time drops rows without one instead of
 	// silently substituting wall-clock time (which corrupts watermark/placement).
@@ -412,7 +416,9 @@ func (tw *TumblingWindow) startEventTime() {
 			for {
 				select {
 				case watermarkTime := <-tw.watermark.WatermarkChan():
+					verifhook.At("tw.trig", tw, watermarkTime.UnixMilli(), 0, 0)
 					tw.checkAndTriggerWindows(watermarkTime)
+					verifhook.At("tw.trigdone", tw, watermarkTime.UnixMilli(), 0, 0)
 				case <-tw.ctx.Done():
 					return
 				}
@@ -529,10 +535,12 @@ func (tw *TumblingWindow) checkAndTriggerWindows(watermarkTime time.Time) {
 			if len(resultData) > 0 {
 				callback := tw.callback
 				tw.mu.Unlock()
+				verifhook.At("tw.fired", tw, currentSlotEnd.UnixMilli(), int64(len(resultData)), 0)
 				if callback != nil {
 					callback(resultData)
 				}
 				tw.sendResult(resultData)
+				verifhook.At("tw.sent", tw, currentSlotEnd.UnixMilli(), int64(len(resultData)), 0)
 				tw.mu.Lock()
 			}
 
@@ -603,6 +611,7 @@ func (tw *TumblingWindow) handleLateData(eventTime time.Time, allowedLateness ti
 			if len(resultData) > 0 {
 				callback := tw.callback
 				tw.mu.Unlock()
+				verifhook.At("tw.late", tw, info.slot.End.UnixMilli(), int64(len(resultData)), 0)
 				if callback != nil {
 					callback(resultData)
 				}
